@@ -37,6 +37,9 @@ class H(http.server.BaseHTTPRequestHandler):
         for b in blocks:
             if isinstance(user, str) and user.startswith('CONDITION:\n' + b['cond'] + '\n\n'):
                 spec = b['reply']
+        if spec[0] != 'err' and w.get('slow_ok'):
+            import time
+            time.sleep(w['slow_ok'])
         if spec[0] == 'err':
             self.send_response(400)
             out = b'{"error": {"message": "bad", "type": "invalid_request_error", "param": null, "code": null}}'
@@ -56,12 +59,13 @@ class H(http.server.BaseHTTPRequestHandler):
 class TS(socketserver.ThreadingMixIn, socketserver.TCPServer):
     allow_reuse_address = True
     daemon_threads = True
+    request_queue_size = 128
 
 
 srv = TS(('127.0.0.1', 0), H)
 threading.Thread(target=srv.serve_forever, daemon=True).start()
 env = dict(os.environ)
-for k in ('BLOCKWATCH_AI_API_KEY', 'BLOCKWATCH_AI_MODEL'):
+for k in ('BLOCKWATCH_AI_API_KEY', 'BLOCKWATCH_AI_MODEL', 'OPENAI_API_KEY'):
     env.pop(k, None)
     if w['env'].get(k) is not None:
         env[k] = w['env'][k]
